@@ -306,6 +306,33 @@ impl<'tcx> Cx<'tcx> {
                                     }
                                 }
                             }
+                            // reference to a constant array of integers (lookup tables)
+                            if let ty::Array(elem, _len) = pointee.kind() {
+                                if elem.is_integral() || elem.is_bool() {
+                                    let typing_env = TypingEnv::fully_monomorphized();
+                                    if let (Ok(layout), Ok(el)) = (tcx.layout_of(typing_env.as_query_input(*pointee)), tcx.layout_of(typing_env.as_query_input(*elem))) {
+                                        let esize = el.size.bytes() as usize;
+                                        let total = layout.size.bytes() as usize;
+                                        let base = ptr.into_raw_parts().1.bytes() as usize;
+                                        let a = alloc.inner();
+                                        if esize > 0 && esize <= 16 && total / esize <= 4096 && base + total <= a.len() {
+                                            let bytes = a.inspect_with_uninit_and_ptr_outside_interpreter(base..base + total);
+                                            let mut vals = String::new();
+                                            for i in 0..(total / esize) {
+                                                let mut v: u128 = 0;
+                                                for bi in 0..esize {
+                                                    v |= (bytes[i * esize + bi] as u128) << (8 * bi);
+                                                }
+                                                if i > 0 {
+                                                    vals.push(',');
+                                                }
+                                                let _ = write!(vals, "\"{}\"", v);
+                                            }
+                                            out = format!("{{\"ref_array\":[{}],\"bits\":{}}}", vals, if elem.is_bool() { 1 } else { esize * 8 });
+                                        }
+                                    }
+                                }
+                            }
                             // reference to a promoted struct whose fields are all scalars (e.g. a constant RangeInclusive<u8>)
                             if let ty::Adt(def, gargs) = pointee.kind() {
                                 if def.is_struct() {
